@@ -35,10 +35,17 @@ def main():
             checks = a.split("=")[1].split(",")
     dst = f"/verif/seeded/{sid}"
     os.makedirs(dst, exist_ok=True)
-    for f in ("patch.diff", "demo.py", "meta.json"):
+    for f in ("patch.diff", "demo.py"):
         if os.path.abspath(src) != os.path.abspath(dst):
             shutil.copy(os.path.join(src, f), os.path.join(dst, f))
-    meta = json.load(open(os.path.join(dst, "meta.json")))
+    meta_path = os.path.join(dst, "meta.json")
+    prev = {}
+    if os.path.exists(meta_path):
+        try:
+            prev = json.load(open(meta_path)).get("confirmation", {})
+        except Exception:  # noqa: BLE001
+            prev = {}
+    meta = json.load(open(os.path.join(src, "meta.json")))
     meta.setdefault("property", pid)
     conf = {"confirmed_at_repo_head": sh("git -C /repo rev-parse --short HEAD")[1].strip()}
     wt = f"/tmp/seedwt-{sid}"
@@ -79,6 +86,8 @@ def main():
             sh(f"rm -rf {snap}")
     finally:
         sh(f"git -C /repo worktree remove --force {wt}")
+    if no_suite and "suite_with_change" in prev:
+        conf["suite_with_change"] = dict(prev["suite_with_change"], carried_over_from_repo_head=prev.get("confirmed_at_repo_head"))
     meta["confirmation"] = conf
     json.dump(meta, open(os.path.join(dst, "meta.json"), "w"), indent=1)
     ok_demo = conf.get("demo_with_change", {}).get("exit", 0) != 0 and conf["demo_without_change"]["exit"] == 0
